@@ -142,10 +142,12 @@ func Walk(dir string) Report {
 			sw.NodesReached++
 			for _, it := range n.Slots {
 				sw.ItemsReached++
-				if !it.ValueNeedsFetch && len(it.Value) > 0 {
+				if len(it.Value) > 0 && string(it.Value) != "null" {
 					inlineItems[it.ID.String()] = true
 				}
-				if !si.IsValueDataInNodeSegment && it.ValueNeedsFetch {
+				// SOP fetches the out-of-node value only when the slot carries no inline value
+				// (item.Value == nil && item.ValueNeedsFetch); a slot with both is served inline.
+				if !si.IsValueDataInNodeSegment && it.ValueNeedsFetch && (len(it.Value) == 0 || string(it.Value) == "null") {
 					vp := blobPath(dir, si.BlobTable, it.ID)
 					reachedBlobs[vp] = true
 					vb, err := os.ReadFile(vp)
